@@ -71,7 +71,7 @@ CHECKS = {
     design="§3 C06"),
  "C12": dict(
     technique="bounded symbolic execution (CrossHair/z3): reuse histories (first use, kind of abort, second use) chosen by symbolic index, second use on the shared object compared with a brand-new object; real handler caches live",
-    text="For every fourth (quick) / every (thorough) of 75 first-use contexts (documents and fragments) x 39 state-leaving tokens (incl. 260 distinct unknown start / end tags that overflow the per-phase handler caches) x {completed, strict-mode ParseError abort, input source failing at the 2nd / 3rd read} x 24 state-sensitive second documents / fragments x {etree, dom}: "
+    text="For every sixth (quick) / every (thorough) of 75 first-use contexts (documents and fragments) x 39 state-leaving tokens (incl. 260 distinct unknown start / end tags that overflow the per-phase handler caches) x {completed, strict-mode ParseError abort, input source failing at the 2nd / 3rd read} x 28 state-sensitive second documents / fragments x {etree, dom}: "
          "tree and error list of the second parse on the reused HTMLParser equal those of a new parser. HTMLSerializer: 7 x 7 documents, first serialize() abandoned after 0..12 chunks or aborted by a strict SerializeError, then render() equals a new serializer's (output and errors).",
     note="NOT APPLICABLE dimension: thread interleavings (no scheduler model in CrossHair; nothing claimed about concurrency). Abort points are the first recorded error and source failures after 1 / 2 chunks; histories are length 2. " + NOTE_COMMON,
     design="§3 C12"),
